@@ -22,6 +22,7 @@ from mc.common import reset_frame_state, quiet
 
 ID = 'C08'
 LEVEL = 'model_checking'
+PRELOAD = ['frame.geometry.geometry', 'frame.netlist.netlist', 'frame.die.die', 'frame.allocation.allocation', 'ruamel.yaml', 'mc.common', 'tools.rect.rect', 'tools.rect.rect_io', 'mc.dpll']
 RULE = ("grids nx x ny (nx*ny <= 6 quick / <= 9 thorough) with column/row coordinates from 6 families (origin 0 integer, origin 1, fractional size, "
         "non-uniform, decimal 0.1 steps, origin 0.5 with size 2.5), k in 1..3: the complete projected model set of the generated CNF vs the brute-force "
         "set of k-box single-trunk orthogons; occupancy vectors over {0, 0.3, 0.7, 1} x every cost bound: the real solve(). "
